@@ -53,8 +53,10 @@ type advCase struct {
 	// WriteErrAll: every write from WriteErrAfter on fails (a persistent fault),
 	// not just the first one.
 	WriteErrAll bool
-	Seed          time.Duration
-	Tail          time.Duration // observation time after run_return
+	// WriteErrUnicast restricts the injected failures to unicast destinations.
+	WriteErrUnicast bool
+	Seed            time.Duration
+	Tail            time.Duration // observation time after run_return
 	// StopHook places the stop request inside an operation: "fwd" = inside the
 	// first forwarding read, "write" = inside the first socket write, that begins
 	// at or after StopHookAfter; the request is made StopHookDelay later.
@@ -149,7 +151,10 @@ func advRun(t *testing.T, c *advCase) *advResult {
 					first = 0
 				}
 				var fired atomic.Bool
-				cn.WriteErr = func(n int, _ netip.Addr) error {
+				cn.WriteErr = func(n int, dst netip.Addr) error {
+					if c.WriteErrUnicast && dst.IsMulticast() {
+						return nil
+					}
 					if c.WriteErrAfter > 0 {
 						if h.tr.Now() >= c.WriteErrAfter && (fired.CompareAndSwap(false, true) || c.WriteErrAll) {
 							return vErrOf(c.WriteErrKind)
@@ -400,17 +405,30 @@ func advContent(r *vlib.Run, c *advCase, res *advResult, exp *model.ExpIface) bo
 func advTaken(r *vlib.Run, c *advCase, res *advResult) bool {
 	f := advAnalyze(c, res.ev)
 	taken := map[string]bool{}
+	listening := map[int]time.Duration{} // generation -> instant its listener first read
 	for _, e := range res.ev {
 		switch e.Kind {
 		case "read_deliver", "read_error":
 			taken[fmt.Sprintf("%d/%d", e.Gen, e.ID)] = true
+		case "read_wait":
+			if _, ok := listening[e.Gen]; !ok {
+				listening[e.Gen] = e.T
+			}
 		}
 	}
 	for _, e := range res.ev {
 		if e.Kind != "enqueue" || taken[fmt.Sprintf("%d/%d", e.Gen, e.ID)] {
 			continue
 		}
-		if e.T+time.Second > f.end(e.Gen) {
+		// the listener of a generation only exists once its initial RA has been
+		// sent (which takes the injected latencies)
+		from := e.T
+		if st, ok := listening[e.Gen]; !ok {
+			continue
+		} else if st > from {
+			from = st
+		}
+		if from+time.Second > f.end(e.Gen) {
 			continue
 		}
 		r.Violation(c.ID, "listener-stopped-reading", fmt.Sprintf("input %d queued at %v on generation %d was never read although the task kept running until %v: the interface is deaf", e.ID, e.T, e.Gen, f.end(e.Gen)), advDetail(c, res.ev))
